@@ -10,10 +10,10 @@ from .common import Vals, StubFuncs, cls_name
 from .nodekit import NodeKit, trace, val_id, VAL, ERR, KIND, EMPTY, SEQ, K_FUNC, K_OBJECT, K_MAP, TRUE_ID, NULL_ID
 
 MANIFEST_ENTRY = {
-    "category": "proof",
-    "text": "environment frames are maps of arbitrary content with an abstract parent chain (the parent's methods replaced by the same contract - induction over the chain): put writes exactly the receiver frame; set updates the nearest frame that defines the name, never adds a key, raises when none does; get/isDefined follow the chain; newEnv allocates a fresh child; a lambda node captures the environment of its evaluation, a call evaluates the body exactly once in a fresh child of the captured (not the caller's) environment, binds parameters in declaration order, evaluates a default in the callee frame at call time only when the argument is absent and rejects missing arguments; def puts into the current frame, assignment requires a definition and updates through set; invoke evaluates arguments left to right once each, expands spreads, calls execute exactly once and appends one stack-trace line; method calls walk the prototype chain and pass the original receiver first; argument matching (named, positional, rest) is proved against the binding spec for up to 3 parameters x 3 arguments (symbolic-bounded); the pipeline form by structural check of the parsed tree (bounded)",
-    "note": "getBase and the prototype walk on concrete chains of depth <= 4 (symbolic-bounded); Args.setArgs / spread expansion unrolled (bounded); children abstract",
-    "technique": "deductive verification: heap-view postconditions on symbolic frames (pyvc + z3), event traces for call semantics; symbolic-bounded unrolling for argument matching",
+    'category': 'proof',
+    'text': "environment frames are maps of arbitrary content with an abstract parent chain (the parent's methods replaced by the same contract - induction over the chain): put writes exactly the receiver frame; set updates the nearest frame that defines the name, never adds a key, raises when none does; get/isDefined follow the chain; newEnv allocates a fresh child; a lambda node captures the environment of its evaluation, a call evaluates the body exactly once in a fresh child of the captured (not the caller's) environment, binds parameters in declaration order, evaluates a default in the callee frame at call time only when the argument is absent and rejects missing arguments; def puts into the current frame, assignment requires a definition and updates through set; invoke evaluates arguments left to right once each, expands spreads, calls execute exactly once and appends one stack-trace line; method calls walk the prototype chain and pass the original receiver first; argument matching (named, positional, rest) is proved against the binding spec for up to 3 parameters x 3 arguments (symbolic-bounded); the pipeline form by structural check of the parsed tree (bounded); destructuring assignment updates the nearest enclosing binding of every target and never creates one (two targets, symbolic-bounded); prototype walks end on cyclic and non-object prototypes",
+    'note': 'getBase and the prototype walk on concrete chains of depth <= 4 (symbolic-bounded); Args.setArgs / spread expansion unrolled (bounded); children abstract',
+    'technique': 'deductive verification: heap-view postconditions on symbolic frames (pyvc + z3), event traces for call semantics; symbolic-bounded unrolling for argument matching',
 }
 PROPERTY = "C03"
 LEVEL = "proof"
